@@ -390,6 +390,12 @@ def parts(tier):
         for sa in bsets:
             for sb in bsets[:: 2 if quick else 1]:
                 yield (_uniq(D.labelled(sa), "a"), _uniq(D.labelled(sb), "x"), 0.0)
+        # the same with ONE label on every entry of A (a tier of "sil" stretches): at 2**40 s two different entries with the same label are "equal" for the
+        # entries' own tolerant ==; they are still two entries
+        for sa in bsets:
+            if len(sa) == 2:
+                for sb in bsets[::3]:
+                    yield (tuple((a_, b_, "sil") for a_, b_ in sa), _uniq(D.labelled(sb), "x"), 0.0)
 
     ps.append(InputPart("setops-interval-pairs-far-from-zero", gen_big, lambda c: _check_pair_on(c[0], c[1], bgrid[0], bgrid[-1], bgrid[-1]),
                         rule="ordered pairs of interval sets (<=2) on the dyadic grid 2**40 + {0, 2**-7, 0.25, 0.5, 1, 2}: overlaps of 7.8 ms and "
